@@ -330,6 +330,49 @@ def run_behaviour(ctx, name, driver_cls, factory, case, seed, workdir, ref_cache
     ctx.traces += 1
 
 
+def probe_recorded_faithfully(ctx, name, driver_cls, factory, workdir, seed):
+    """The recorded chain lists exactly the states the transitions produced (judged against an independent record of
+    the sampler's point after every transition), also when the same object is re-initialised and run again for the SAME
+    number of steps on a DIFFERENT random stream, and when get_samples() is called repeatedly in between."""
+    drv = driver_cls(factory, workdir)
+    np.random.seed(seed)
+    drv.construct()
+    rec = {"rng": [], "pt": []}
+    drv.hook_steps(rec)
+    case = {"kind": "probe", "sampler": name}
+
+    def same(tag):
+        chain = drv.chain()
+        pts = [p for p in rec["pt"] if p is not None]
+        n = chain.shape[1] if chain.size else 0
+        if n != len(pts) or any(not _eq(chain[:, j], pts[j]) for j in range(n)):
+            ctx.mismatch("stateful/%s/recorded/%s" % (name, tag), dict(case, step=tag),
+                         "get_samples() does not list the states the transitions produced (%s)" % tag,
+                         [list(p) for p in pts], chain.T.tolist() if chain.size else [])
+            return False
+        return True
+    try:
+        drv.sample(3)
+        if not same("sample3"):
+            return
+        drv.chain()
+        drv.sample(2)
+        if not same("sample3+2"):
+            return
+        if drv.has_ckpt:
+            drv.reinit()
+            rec["pt"].clear()
+            rec["rng"].clear()
+            np.random.seed(seed + 12345)           # another stream: the new chain differs from the old one
+            drv.sample(5)
+            if not same("reinit.sample5"):
+                return
+    except Exception as ex:
+        ctx.mismatch("stateful/%s/recorded/error" % name, case, "probe raised %s: %s" % (type(ex).__name__, str(ex)[:150]))
+        return
+    ctx.traces += 1
+
+
 # ----------------------------------------------------------------------------------------------------------
 # stateless interface
 # ----------------------------------------------------------------------------------------------------------
@@ -630,6 +673,9 @@ def run(ctx):
                 # warm-up of cuqi.sampler.Gibbs happens inside the first sample call: behaviours whose first sample is non-empty
                 cases = [c for c in cases if c["warm"] == 0 or
                          [e for e in c["prog"] if e["op"] == "sample"][0]["n"] > 0]
+            ctx.case(("probe", name))
+            with zoo.quiet():
+                probe_recorded_faithfully(ctx, name, cls, fac, workdir, 1500 + ctx.seed)
             for c in _select(cases, rnd, limit):
                 ctx.case(("stateful", name, c["warm"], tuple((e["op"], e["n"]) for e in c["prog"])))
                 with zoo.quiet():
